@@ -496,6 +496,20 @@ impl<const K: u8> Probe<K> {
                     (ChildReg::Msg1, AnyAddr::A1(a)) => ctx.register_child::<ChildMsg<1>>(a),
                 }
             }
+            // every other child is registered by reference (`From<&Addr>`): the parent's entry is a strong
+            // handle all the same, the child lives on after the local address is dropped
+            if slot % 2 == 1 {
+                match (ch.under, &addr) {
+                    (ChildReg::Unit, AnyAddr::A0(a)) => ctx.add_child(a),
+                    (ChildReg::Unit, AnyAddr::A1(a)) => ctx.add_child(a),
+                    (ChildReg::Msg0, AnyAddr::A0(a)) => ctx.register_child::<ChildMsg<0>>(a),
+                    (ChildReg::Msg0, AnyAddr::A1(a)) => ctx.register_child::<ChildMsg<0>>(a),
+                    (ChildReg::Msg1, AnyAddr::A0(a)) => ctx.register_child::<ChildMsg<1>>(a),
+                    (ChildReg::Msg1, AnyAddr::A1(a)) => ctx.register_child::<ChildMsg<1>>(a),
+                }
+                drop(addr);
+                continue;
+            }
             match (ch.under, addr) {
                 (ChildReg::Unit, AnyAddr::A0(a)) => ctx.add_child(a),
                 (ChildReg::Unit, AnyAddr::A1(a)) => ctx.add_child(a),
